@@ -547,9 +547,9 @@ theorem Frame.step' (F : Frame R) (E : Edits R) (hD : ∀ j a u, R j a (a.setDis
 /-- If a reflexive, transitive relation `P` between networks holds across every command that carries no further command,
 across everything that only tears sessions / connections down, across the bookkeeping of an accepted terminal command
 (`last_active_step`, the local login and its connection), then it holds across every request, nested to any depth. -/
-theorem exec_induction (P : Net → Net → Prop) (refl : ∀ n, P n n) (trans : ∀ a b c, P a b → P b c → P a c)
+theorem exec_induction' (P : Net → Net → Prop) (refl : ∀ n, P n n) (trans : ∀ a b c, P a b → P b c → P a c)
     (hAtomic : ∀ c, c.atomic = true → ∀ n y, P n (execCmd c n y).1)
-    (hShr : ∀ n m, n.Shr m → P n m)
+    (hDisc : ∀ n y cid, P n (disconnect n.fuel n y cid))
     (hTouch : ∀ n y cid t, P n (n.upd y (Node.touch cid t)))
     (hLogin : ∀ n y u p, P n (localLogin n y u p).1)
     (hConn : ∀ n y c, P n (n.upd y (Node.addConn c))) :
@@ -570,7 +570,7 @@ theorem exec_induction (P : Net → Net → Prop) (refl : ∀ n, P n n) (trans :
       simp only [execCmd] <;> rw [h0]
     · exact refl n
     · exact trans _ _ _ (hTouch _ _ _ _) (ih _ _)
-    · exact hShr _ _ (shr_disconnect _ _ _ _)
+    · exact hDisc _ _ _
   | file k => exact hAtomic _ rfl
   | addUser u p adm => exact hAtomic _ rfl
   | disableUser u => exact hAtomic _ rfl
@@ -583,6 +583,15 @@ theorem exec_induction (P : Net → Net → Prop) (refl : ∀ n, P n n) (trans :
   | shutdown => exact hAtomic _ rfl
   | startup => exact hAtomic _ rfl
   | reset => exact hAtomic _ rfl
+
+theorem exec_induction (P : Net → Net → Prop) (refl : ∀ n, P n n) (trans : ∀ a b c, P a b → P b c → P a c)
+    (hAtomic : ∀ c, c.atomic = true → ∀ n y, P n (execCmd c n y).1)
+    (hShr : ∀ n m, n.Shr m → P n m)
+    (hTouch : ∀ n y cid t, P n (n.upd y (Node.touch cid t)))
+    (hLogin : ∀ n y u p, P n (localLogin n y u p).1)
+    (hConn : ∀ n y c, P n (n.upd y (Node.addConn c))) :
+    ∀ (c : Cmd) (n : Net) (y : Nat), P n (execCmd c n y).1 :=
+  exec_induction' P refl trans hAtomic (fun n y cid => hShr _ _ (shr_disconnect _ _ _ _)) hTouch hLogin hConn
 
 theorem Net.Rel.none {n m : Net} (h : Net.Rel R n m) {j : Nat} (hj : n.node j = none) : m.node j = none := by
   unfold Net.node at *
